@@ -89,6 +89,20 @@ func sortStrings(l []string) {
 	}
 }
 
+// a space in which the stream has registered patterns (so that the loop reaches it), else any
+func (w *nodeWorld) spaceWithInterest(s *nstream) string {
+	var cands []string
+	for _, sp := range spaces {
+		if len(w.registeredOf(s, sp)) > 0 {
+			cands = append(cands, sp)
+		}
+	}
+	if len(cands) > 0 && w.r.Chance(85) {
+		return cands[w.r.Intn(len(cands))]
+	}
+	return pick(w.r, spaces)
+}
+
 func (w *nodeWorld) registeredOf(s *nstream, space string) []string {
 	var out []string
 	if ss := w.spec.streams[s.sid]; ss != nil {
@@ -169,6 +183,69 @@ func witnessCases(r *corr.Run, accts []*acct) {
 	w.checkEmpty("W3: after the stream closed")
 	r.Case("W3 "+fmt.Sprint(w.ops), true)
 	w.shutdown()
+}
+
+// raceWitnessCases: the close-inside-subscribe schedule with another stream holding the same pattern,
+// and the symmetric points of unsubscribe / evict / close-space, on every run.
+func raceWitnessCases(r *corr.Run, accts []*acct) {
+	setup := func() (*nodeWorld, *nstream, *nstream) {
+		w := newNodeWorld(r, accts)
+		for _, sp := range spaces {
+			for _, a := range accTokens {
+				w.setMember(sp, a, true)
+			}
+		}
+		s1 := w.open("P0", "A0")
+		s2 := w.open("P1", "A1")
+		w.subscribe(s1, "s1", []string{"a", "a/>"})
+		return w, s1, s2
+	}
+	probe := func(w *nodeWorld, from *nstream) {
+		// the delivery oracle for the streams that still hold the patterns
+		w.publish(from, pubOpts{space: "s1", topic: "a", ident: from.ident})
+		w.publish(from, pubOpts{space: "s1", topic: "a/b", ident: from.ident})
+	}
+	finish := func(w *nodeWorld, name string) {
+		for _, id := range w.sids() {
+			w.closeStream(w.st[id])
+		}
+		w.checkEmpty(name + ": after every stream closed")
+		r.Case(name+" "+fmt.Sprint(w.ops), true)
+		w.shutdown()
+	}
+	// RW1: stream 2 subscribes the patterns stream 1 holds and is removed inside AddTagsCtx
+	w, s1, s2 := setup()
+	w.subscribeRace(s2, "s1", []string{"a", "a/>", "b"})
+	probe(w, s1)
+	finish(w, "RW1")
+	// RW2: same, stream 2 already had interest of its own
+	w, s1, s2 = setup()
+	w.subscribe(s2, "s1", []string{"a"})
+	w.subscribe(s2, "s2", []string{"b"})
+	w.subscribeRace(s2, "s1", []string{"a/>", "*"})
+	probe(w, s1)
+	finish(w, "RW2")
+	// RW3: close between the record update and RemoveTagsCtx of an unsubscribe
+	w, s1, s2 = setup()
+	w.subscribe(s2, "s1", []string{"a", "b"})
+	w.unsubscribeRace(s2, "s1", []string{"a"})
+	probe(w, s1)
+	finish(w, "RW3")
+	// RW4: a victim of EvictMember closes when the loop reaches its tags
+	w, s1, s2 = setup()
+	w.subscribe(s2, "s1", []string{"a", "b"})
+	w.subscribe(s2, "s2", []string{"a"})
+	w.evictRace("s1", "A1", s2)
+	probe(w, s1)
+	finish(w, "RW4")
+	// RW5: CloseSpace with a closing victim; the other space of that stream must go with its close
+	w, s1, s2 = setup()
+	w.subscribe(s2, "s1", []string{"a"})
+	w.subscribe(s2, "s2", []string{"a", "b"})
+	w.subscribe(s1, "s2", []string{"a"})
+	w.closeSpaceRace("s1", s2)
+	w.publish(s1, pubOpts{space: "s2", topic: "a", ident: s1.ident})
+	finish(w, "RW5")
 }
 
 func nodeCase(r *corr.Run, accts []*acct, steps int) {
@@ -255,11 +332,50 @@ func nodeCase(r *corr.Run, accts []*acct, steps int) {
 			w.setResponsible(pick(r, spaces), r.Chance(50))
 		case x < 92:
 			w.setNodePeer(pick(r, peers), r.Chance(50))
-		case x < 96:
+		case x < 95:
 			w.closeStream(any[r.Intn(len(any))])
 		default:
 			if len(live) > 0 {
-				w.kill(live[r.Intn(len(live))])
+				s := live[r.Intn(len(live))]
+				switch y := r.Intn(100); {
+				case y < 35:
+					w.kill(s)
+				case y < 65:
+					// the stream closes inside its own subscribe; prefer patterns other streams hold
+					space := "s1"
+					if r.Chance(30) {
+						space = "s2"
+					}
+					if isAcct(s.ident) && r.Chance(75) {
+						w.setMember(space, s.ident, true) // so that the frame usually gets as far as tagging
+					}
+					pats := w.pickPatterns(s, space)
+					var shared []string
+					for _, id := range w.sids() {
+						if id != s.sid {
+							shared = append(shared, w.registeredOf(w.st[id], space)...)
+						}
+					}
+					if len(shared) > 0 && r.Chance(80) {
+						pats = append([]string{shared[r.Intn(len(shared))]}, pats...)
+						if len(pats) > 3 {
+							pats = pats[:3]
+						}
+					}
+					w.subscribeRace(s, space, pats)
+				case y < 80:
+					space := w.pickSpace()
+					reg := w.registeredOf(s, space)
+					var pats []string
+					if len(reg) > 0 && r.Chance(70) {
+						pats = []string{reg[r.Intn(len(reg))]}
+					}
+					w.unsubscribeRace(s, space, pats)
+				case y < 92 && isAcct(s.ident):
+					w.evictRace(w.spaceWithInterest(s), s.ident, s)
+				default:
+					w.closeSpaceRace(w.spaceWithInterest(s), s)
+				}
 			}
 		}
 	}
@@ -436,6 +552,7 @@ func Run(r *corr.Run) {
 	runTrieStream(r)
 	accts := newAccts(r, 4)
 	witnessCases(r, accts)
+	raceWitnessCases(r, accts)
 	nNode, nClient := r.Pick(600, 14000), r.Pick(300, 7000)
 	for k := 0; (k < nNode || k < nClient) && r.TimeLeft(); k++ {
 		if k < nNode {
